@@ -86,6 +86,22 @@ def check_guard(ctx, r):
     ctx.counters["new_style_wrappers"] = len(ws)
     ctx.floor("C19.1", "new_style_wrappers", 1)
     jt = m.func("_decorator.jaxtyped")
+    # the switches may only be consulted per call: any read in jaxtyped's own (decoration-time) scope
+    # freezes the decision for the lifetime of the decorated function
+    for n in walk_scope(jt.node):
+        frozen = None
+        if isinstance(n, ast.Attribute) and isinstance(n.ctx, ast.Load) and n.attr == "jaxtyping_disable":
+            frozen = "config.jaxtyping_disable"
+        if isinstance(n, ast.Constant) and n.value == "__no_type_check__":
+            frozen = "__no_type_check__"
+        if isinstance(n, ast.Attribute) and isinstance(n.ctx, ast.Load) and n.attr == "__no_type_check__":
+            frozen = "__no_type_check__"
+        if frozen:
+            ctx.bad("C19.1", jt, n, f"`{frozen}` is consulted when the function is decorated, not when it is called: what was decided then (skipping the typechecker, "
+                    "capturing the flag) is not undone when the switch is toggled later, so switching back on does not restore checking",
+                    construct=f"decoration-time read of {frozen}")
+    else:
+        pass
     for w, impl in ws:
         ctx.saw(w)
         g = NoReturn(m).cfg(w)
